@@ -13,7 +13,8 @@ RULE = ("cases = (input bytes, depth limit) from skeleton x exhaustive small-alp
         "repetition counts), replacements that expand to several indicators, address-reuse histories (scan, drop and collect the "
         "tree, allocate a shorter buffer of the same size class, scan), mutated test literals, token soup (thorough: large "
         "inputs). Each case: Multidecoder().scan + flatten + list(root) + string_summary + json.loads(tree_to_json); "
-        "hang = CPU budget exceeded twice (second time alone under RLIMIT_CPU). distinct_nontrivial = distinct inputs "
+        "hang = CPU budget exceeded twice (second time alone under RLIMIT_CPU). Added after the blind seed rounds: letters whose Unicode case mapping changes their UTF-8 length around bundled keywords, numeric fields with 4299..70000 leading zeros / digits (interpreter int() digit limit), dotted quads in every octet spelling. "
+        "distinct_nontrivial = distinct inputs "
         "(sha1) whose result tree has at least one node below the root.")
 ASSUMPTIONS = ["CPython 3.12, regex and pefile wheels are trusted", "inputs capped at 16 KiB (thorough: one 64 KiB-1 MiB class)",
                "non-termination is operationalised as 3x the per-case CPU budget"]
